@@ -15,7 +15,7 @@ pub static C17: P = P;
 pub const TOKENS: [&str; 30] = [
     "p", "color", "red", "x", "important", ":nth-child(", "n", "{", "}", "(", ")", "[", "]", ":", ";", ",", ".", "#", "@", "!", "*", ">", "+", "-", "\"", "'", "\\", "/*", "*/", " ",
 ];
-pub const TOKENS2: [&str; 12] = ["<!--", "-->", "0", "255", "256", "2147483647", "2147483648", "99999999999", "1e999", "#0a0b0c", "\n", "@media"];
+pub const TOKENS2: [&str; 16] = ["<!--", "-->", "0", "255", "256", "2147483647", "2147483648", "99999999999", "1e999", "#0a0b0c", "\n", "@media", "\u{e9}", "\u{4e2d}", "\u{1f600}x", "\u{301}"];
 
 const DOC: &str = "<div><p class=a id=i>k <span>l</span></p><p>m</p></div><p class=a>n</p><span>o</span>";
 
@@ -361,7 +361,7 @@ impl Scope for S {
     }
     fn info(&self) -> Info {
         Info {
-            rule: "(a) every sequence of soup_len tokens over the 30-token CSS alphabet (last position also over 12 extra tokens: CDO/CDC, numeric limits, 1e999, newline, @media) through add_css (all), add_agent_css (every 4th prefix) and, for sequences with a short prefix, <style> and the style attribute; every truncation of 5 spellings of every rule set; :nth-child with 13x13 extreme coefficient pairs in 6 argument forms incl. matching; (b) every rule set of 1..2 (thorough 3) rules x 36 syntax rewrites x routes: rich output must be identical; non-trivial = rewrite changed the bytes / soup contains a block or is rejected".into(),
+            rule: "(a) every sequence of soup_len tokens over the 30-token CSS alphabet (last position also over 16 extra tokens: CDO/CDC, numeric limits, 1e999, newline, @media, 2/3/4-byte and combining characters - e.g. directly after a backslash) through add_css (all), add_agent_css (every 4th prefix) and, for sequences with a short prefix, <style> and the style attribute; every truncation of 5 spellings of every rule set; :nth-child with 13x13 extreme coefficient pairs in 6 argument forms incl. matching; (b) every rule set of 1..2 (thorough 3) rules x 36 syntax rewrites x routes: rich output must be identical; non-trivial = rewrite changed the bytes / soup contains a block or is rejected".into(),
             bounds: json!({"soup_length": self.soup_len, "alphabet": TOKENS, "extra_last_tokens": TOKENS2, "rule_sets": self.n_eq, "rewrites": REWRITES[1..].to_vec(), "truncated_rule_sets": self.n_trunc, "nth_pairs": self.n_nth}),
             assumptions: vec!["the token alphabet cannot spell display/content/white-space declarations, so junk CSS cannot legitimately change the text".into()],
         }
